@@ -15,9 +15,8 @@ class C14(Prop):
     coq_targets = ["Run/EvalC14.vo"]
     bins = ["h_ignore"]
     trusted = [
-        "partial: the proofs cover tagging, find_file and the explicit-watch relation of the stack machine; that the machine equals the "
-        "structural 'reachable without entering an ignored directory' specification and is independent of listing order is checked "
-        "by running the model under two listing orders against the real crate (which sees the kernel's order), not yet by a theorem",
+        "partial: independence from the directory listing order is checked by running the model under two listing orders against the real "
+        "crate (which sees the kernel's order), not by a theorem; completeness and termination are proved for listings with absolute, distinct paths",
         "modelled, not verified: tokio read_dir/metadata (flat listing), gix_config parsing of .git/config (core.excludesFile is an input), "
         "IgnoreFilter model of C03",
     ]
